@@ -22,30 +22,52 @@ from props import c06
 # every line is written with one unbuffered write(2): nothing is lost or duplicated across fork()
 PY_LOG = '''%s
 import os
+RAISE = %s
+N = [0]
+def boom(ctx):
+    N[0] += 1
+    if N[0] - 1 in RAISE:
+        return ctx["nosuchkey"]            # KeyError inside the callback
 def uftrace_begin(ctx):
     os.write(1, ("B %%d\\n" %% os.getpid()).encode())
+    boom(ctx)
 def uftrace_entry(ctx):
     os.write(1, ("E %%d %%d %%d %%d %%s\\n" %% (ctx["tid"], ctx["depth"], ctx["timestamp"], ctx["address"], ctx["name"])).encode())
+    boom(ctx)
 def uftrace_exit(ctx):
     os.write(1, ("X %%d %%d %%d %%d %%d %%s\\n" %% (ctx["tid"], ctx["depth"], ctx["timestamp"], ctx["duration"], ctx["address"], ctx["name"])).encode())
+    boom(ctx)
 def uftrace_end():
     os.write(1, ("Z %%d\\n" %% os.getpid()).encode())
 '''
 LUA_LOG = '''%s
-function uftrace_begin(ctx) print("B") end
-function uftrace_entry(ctx) print(string.format("E %%d %%d %%d %%d %%s", ctx["tid"], ctx["depth"], ctx["timestamp"], ctx["address"], ctx["name"])) end
-function uftrace_exit(ctx) print(string.format("X %%d %%d %%d %%d %%d %%s", ctx["tid"], ctx["depth"], ctx["timestamp"], ctx["duration"], ctx["address"], ctx["name"])) end
+RAISE = %s
+N = 0
+function boom() N = N + 1; if RAISE[N - 1] then error("boom") end end
+function uftrace_begin(ctx) print("B"); boom() end
+function uftrace_entry(ctx) print(string.format("E %%d %%d %%d %%d %%s", ctx["tid"], ctx["depth"], ctx["timestamp"], ctx["address"], ctx["name"])); boom() end
+function uftrace_exit(ctx) print(string.format("X %%d %%d %%d %%d %%d %%s", ctx["tid"], ctx["depth"], ctx["timestamp"], ctx["duration"], ctx["address"], ctx["name"])); boom() end
 function uftrace_end() print("Z") end
 '''
 
 
+def lang_parts(lang):
+    """'py' | 'lua' | 'py!:1,4' | 'py!v:0,2' -> (base, verbose, callbacks (0 = begin, then in order) that raise after logging)"""
+    if "!" not in lang:
+        return lang, False, []
+    base, rest = lang.split("!", 1)
+    flag, idx = rest.split(":", 1)
+    return base, flag == "v", [int(x) for x in idx.split(",") if x]
+
+
 def write_script(path, lang, funcs):
-    if lang == "py":
+    base, _, raising = lang_parts(lang)
+    if base == "py":
         hdr = "" if funcs is None else "UFTRACE_FUNCS = [%s]" % ", ".join('"%s"' % f for f in funcs)
-        open(path, "w").write(PY_LOG % hdr)
+        open(path, "w").write(PY_LOG % (hdr, repr(set(raising)) if raising else "set()"))
     else:
         hdr = "" if funcs is None else "UFTRACE_FUNCS = {%s}" % ", ".join('"%s"' % f for f in funcs)
-        open(path, "w").write(LUA_LOG % hdr)
+        open(path, "w").write(LUA_LOG % (hdr, "{" + ", ".join("[%d] = true" % i for i in raising) + "}"))
 
 
 def parse_callbacks(out, tid_idx, name_idx, addr_idx):
@@ -191,9 +213,10 @@ def run_script_case(ctx, objdir, case, variants):
     res = []
     replay_cache = {}
     for lang, funcs, sel in variants:
-        script = os.path.join(ctx.scratch, "log.%s" % ("py" if lang == "py" else "lua"))
+        base, verbose, _ = lang_parts(lang)
+        script = os.path.join(ctx.scratch, "log.%s" % ("py" if base == "py" else "lua"))
         write_script(script, lang, funcs)
-        args = ["-S", script]
+        args = ["-S", script] + (["-v"] if verbose else [])
         if funcs is not None and funcs_ptype(funcs) == "glob":
             args.append("--match=glob")
         if sel is not None:
@@ -290,7 +313,7 @@ def run_opts_case(ctx, objdir, case, variants):
     addr_map.update({c06.BASE2 + sy[0]: c06.fid(case, i) for i, sy in enumerate(c06.sym_table(case))})
     res = []
     for lang, o, funcs, sel in variants:
-        script = os.path.join(ctx.scratch, "logo.%s" % ("py" if lang == "py" else "lua"))
+        script = os.path.join(ctx.scratch, "logo.%s" % ("py" if lang_parts(lang)[0] == "py" else "lua"))
         write_script(script, lang, funcs)
         extra = opts_args(o)
         if funcs is not None and funcs_ptype(funcs) == "glob":
@@ -1022,17 +1045,27 @@ def run(ctx):
         if ctx.thorough():
             variants += [("py", None, closed_sel(rng, case)), ("py", gen_funcs(rng, case), closed_sel(rng, case)),
                          ("lua", gen_funcs(rng, case), None)]
+        # callbacks that raise (KeyError in Python, error() in Lua) after logging: the following callbacks must still get
+        # their own record's fields (an exception left pending poisoned the next ctx["name"]: fixed in /repo, see manifest)
+        nrec = sum(len(t["recs"]) for t in case["tasks"])
+        pts = lambda: ",".join(map(str, sorted(set(rng.sample(range(0, nrec + 1), min(nrec + 1, rng.choice([1, 2, 3]))))
+                                                   | ({0} if rng.random() < 0.2 else set()))))
+        kk = len(items)
+        variants.append(("py!%s:%s" % ("v" if kk % 3 == 1 else "", pts()), gen_funcs(rng, case) if kk % 4 == 3 else None, None))
+        if kk % 3 == 2 or ctx.thorough():
+            variants.append(("lua!:%s" % pts(), None, None))
         if case["illformed"]:
             # an inverted timestamp gives a duration of 2^64-x: Lua numbers cannot hold it (and the
             # stream is outside the property's domain): model correspondence through Python only
-            variants = [v for v in variants if v[0] == "py"]
+            variants = [v for v in variants if v[0].startswith("py")]
         obs = run_script_case(ctx, objdir, case, variants)
         items.append((case, obs))
         tags = c06.case_tags(case)
         for (lang, funcs, sel), cbs, lines in obs:
             ctx.case(key=(repr([(t["parent"], t["recs"]) for t in case["tasks"]]), lang, repr(funcs), repr(sel)),
                      nontrivial=len(case["tasks"]) > 1,
-                     tags=tags + ["lang=" + lang] + (["UFTRACE_FUNCS"] if funcs else []) + (["--tid"] if sel else []),
+                     tags=tags + ["lang=" + lang_parts(lang)[0]] + (["raising-callback" + ("-v" if lang_parts(lang)[1] else "")] if "!" in lang else [])
+                     + (["UFTRACE_FUNCS"] if funcs else []) + (["--tid"] if sel else []),
                      sample={"tasks": case["tasks"], "lang": lang, "funcs": funcs, "sel": sel, "callbacks": len(cbs)}
                      if len(ctx.samples) < 3 and len(case["tasks"]) > 1 else None,
                      size=sum(len(t["recs"]) for t in case["tasks"]))
